@@ -49,6 +49,11 @@ def run(ids):
             continue
         meta = json.load(open(os.path.join(d, 'meta.json')))
         prop = meta['property']
+        if meta.get('superseded'):
+            # the change no longer breaks the property on the current tree (a later fix: commit made it harmless); kept for the record
+            results[sid] = {'property': prop, 'exit': 0, 'detected': False, 'superseded': meta['superseded'], 'report': []}
+            print(sid, prop, 'superseded:', meta['superseded'][:100])
+            continue
         assert subprocess.run(['git', '-C', '/repo', 'status', '--porcelain', '--untracked-files=no'], capture_output=True, text=True).stdout.strip() == '', '/repo not clean'
         try:
             subprocess.run(['git', '-C', '/repo', 'apply', os.path.join(d, 'patch.diff')], check=True)
@@ -66,7 +71,7 @@ def run(ids):
         f.write('# Seeded breaking changes vs. the registered quick checks\n\n| seed | property | verdict | first report line |\n|---|---|---|---|\n')
         for sid in sorted(results):
             x = results[sid]
-            f.write('| %s | %s | %s | %s |\n' % (sid, x['property'], 'detected' if x['detected'] else ('analysis-broken' if x['exit'] == 2 else 'missed'), (x['report'][0][:160].replace('|', '/') if x['report'] else '')))
+            f.write('| %s | %s | %s | %s |\n' % (sid, x['property'], 'detected' if x['detected'] else ('superseded' if x.get('superseded') else ('analysis-broken' if x['exit'] == 2 else 'missed')), (x['superseded'][:160] if x.get('superseded') else x['report'][0][:160].replace('|', '/') if x['report'] else '')))
 
 
 if __name__ == '__main__':
